@@ -56,6 +56,15 @@ def run_program(prog, seed, sg=None, repeat_fixed=1, poison=None):
             fn = getattr(nn.init, s["fn"])
             fn(t) if s["fn"] not in ("constant_",) else fn(t, 0.5)
             put_t(t, tag)
+        elif k == "adam_eps0":
+            for cls in (sg.optim.Adam, sg.optim.AdamW):
+                pz = nn.Parameter(Tensor(np.array([1.0, 2.0, 3.0], dtype=np.float32), requires_grad=True))
+                op_ = cls([pz], lr=0.1, eps=0)
+                for _st in range(3):
+                    op_.zero_grad()
+                    (pz * Tensor(np.array([0.0, 1.0, 0.0], dtype=np.float32))).sum().backward()     # entries 0 and 2: zero gradient
+                    op_.step()
+                put(np.nan_to_num(pz.data, nan=-77.0), tag + cls.__name__)      # NaN payloads normalised, positions kept
         elif k == "init_all":
             # every initialiser in every documented argument spelling on non-square tensors (fan_in != fan_out)
             for shape in ([3, 5], [2, 3, 2]):
